@@ -250,6 +250,12 @@ func (ev *Env) evo(e ast.Expr, old bool) Val {
 	case *ast.BinaryExpr:
 		return ev.binary(e, old)
 	case *ast.SelectorExpr:
+		// <Sort>.empty
+		if id, ok := e.X.(*ast.Ident); ok && e.Sel.Name == "empty" {
+			if _, isSeq := U.seqs[id.Name]; isSeq {
+				return Val{S: id.Name, T: id.Name + ".empty"}
+			}
+		}
 		// package-qualified constant?
 		if id, ok := e.X.(*ast.Ident); ok {
 			if _, isVar := ev.lookupVar(id.Name); !isVar {
@@ -543,6 +549,42 @@ func (ev *Env) call(e *ast.CallExpr, old bool) Val {
 			return Val{S: "Bool", T: fmt.Sprintf("(forall ((%s Int)) (=> (and (<= %s %s) (< %s %s)) %s))", bn, lo.T, bn, bn, hi.T, body.T)}
 		}
 		return Val{S: "Bool", T: fmt.Sprintf("(exists ((%s Int)) (and (<= %s %s) (< %s %s) %s))", bn, lo.T, bn, bn, hi.T, body.T)}
+	case "variant":
+		// the measure recorded at the head of loop k for the current iteration
+		lit, ok := e.Args[0].(*ast.BasicLit)
+		if !ok {
+			limitf("variant(k)")
+		}
+		k, _ := strconv.Atoi(lit.Value)
+		v := ev.st.frames[0].variant[k]
+		if len(v) == 0 {
+			limitf("variant(%d): loop %d has no recorded measure on this path", k, k)
+		}
+		return Val{S: "Int", T: v[0]}
+	case "forallS", "existsS":
+		id, ok := e.Args[0].(*ast.Ident)
+		srt, ok2 := e.Args[1].(*ast.BasicLit)
+		if !ok || !ok2 || len(e.Args) != 3 {
+			limitf("%s(x, \"Sort\", body)", name)
+		}
+		sn, _ := strconv.Unquote(srt.Value)
+		if ev.bound == nil {
+			ev.bound = map[string]Val{}
+		}
+		prev, had := ev.bound[id.Name]
+		bn := "q_" + id.Name
+		ev.bound[id.Name] = Val{S: sn, T: bn}
+		body := ev.evo(e.Args[2], old)
+		if had {
+			ev.bound[id.Name] = prev
+		} else {
+			delete(ev.bound, id.Name)
+		}
+		q := "forall"
+		if name == "existsS" {
+			q = "exists"
+		}
+		return Val{S: "Bool", T: fmt.Sprintf("(%s ((%s %s)) %s)", q, bn, sn, body.T)}
 	case "isnil":
 		v := arg(0)
 		n := ev.nilFor(v)
